@@ -257,6 +257,16 @@ fn c12_one(ctx: &mut Ctx, c: &DayCase, r: &mut Rng) {
     // (2) intervals (policies that the interval pass does not skip)
     let (pn, _) = policy_name(&c.p.extreme_latitude_method);
     if !["MinutesFromMaghribFajrIshaInvalid", "HalfOfNightFajrIshaInvalid", "HalfOfNightFajrIshaAlways"].contains(&pn) && c.p.round_seconds == RoundSeconds::None {
+        // the case as given (a recorded input carries its own intervals): Imsaak = Fajr - interval, same flag
+        let (ivf, ivi) = (c.p.intervals[&Prayer::Fajr], c.p.intervals[&Prayer::Imsaak]);
+        if ivf >= 1. && ivi >= 1. && ivf <= 120. && ivi <= 120. && PRAYERS.iter().all(|q| c.p.minutes[q] == 0.) {
+            if let (Some((f, fe)), Some((im, ime))) = (t(&base, Prayer::Fajr), t(&base, Prayer::Imsaak)) {
+                if cdiff(im, f - 60. * ivi).abs() > 1. || fe != ime {
+                    ctx.fail(c.to_json(), format!("Imsaak {} (extreme {}) Fajr {} (extreme {}) Imsaak interval {} Fajr interval {}", hms(im as i64), ime, hms(f as i64), fe, ivi, ivf), "Imsaak = Fajr - interval, same flag".into());
+                    return;
+                }
+            }
+        }
         let iv = r.int(1, 120) as f64;
         let c2 = c.with(|p| *p.intervals.get_mut(&Prayer::Isha).unwrap() = iv);
         if let Ok(d2) = c2.run() {
